@@ -452,6 +452,8 @@ def mirror(v, memo):
 
 def same(py, ab, memo, path='result'):
     """None if the abstract value `ab` equals the reference value `py` including identity with the argument containers; else a message"""
+    if isinstance(ab, Sym) or (isinstance(ab, tuple) and ab and isinstance(ab[0], str) and ab[0] in ('bound', 'closure', 'partial', 'extern', 'builtin')):
+        raise Unrecognised('E6c', f'{path} is the unmodelled value {ab!r}', None)
     if isinstance(py, (list, dict)):
         want_cls = AList if isinstance(py, list) else ADict
         if not isinstance(ab, want_cls):
